@@ -145,7 +145,10 @@ uint32_t cop_deserialize_value(const uint8_t *buf, uint32_t buf_size,
         uint32_t count;
         memcpy(&count, buf + pos, 4);
         pos += 4;
+        /* every element takes at least one byte: a larger count cannot be genuine */
+        if (count > buf_size - pos) return 0;
         VmArray *arr = vm_array_new(heap, etype, count > 0 ? count : 4);
+        if (!arr || !arr->elements) return 0;
         for (uint32_t i = 0; i < count; i++) {
             NanoValue elem;
             uint32_t n = cop_deserialize_value(buf + pos, buf_size - pos,
